@@ -229,6 +229,20 @@ def known_label(o):
             while base is not None and base.kind in ('ref', 'cast'):
                 base = base.base
             proj = [x for x in o.proj if x != '*']
+            if base is not None and base.kind == 'call' and ''.join(proj) == '@Break.0':
+                # the residual of `x?` (origins look through Try::branch to x): Option<Infallible> is None,
+                # Result<Infallible, E> is Err
+                try:
+                    ty = base.site.body.rec['locals'][base.term['dest'][0]]['ty']
+                except Exception:
+                    ty = ''
+                if re.search(r'Try>?::branch$', base.callee):
+                    ty = base.term['fn'].get('self') or ''
+                if re.match(r'^(?:std|core)::option::Option<', ty):
+                    return 'None'
+                if re.match(r'^(?:std|core)::result::Result<', ty):
+                    return 'Err'
+                return None
             if base is not None and base.kind == 'agg' and getattr(base, 'ops', None) is not None:
                 vn = base.rv.get('variant')
                 if vn and proj and proj[0] == '@' + vn:
@@ -243,6 +257,13 @@ def known_label(o):
         if o.kind == 'const':
             if o.value in (0, 1) and getattr(o, 'ty', '') == 'bool':
                 return 'true' if o.value else 'false'
+            return None
+        if o.kind == 'call' and re.search(r'FromResidual.*::from_residual$', o.callee):
+            # the value a `?` returns early: always the failure variant of the function's own return type
+            full = (o.term['fn'].get('full') or o.term['fn'].get('self') or '') if getattr(o, 'term', None) else ''
+            m = re.match(r'^<(?:std|core)::(option::Option|result::Result)<', full)
+            if m:
+                return 'None' if m.group(1).endswith('Option') else 'Err'
             return None
         if o.kind == 'call' and o.args and any(o.callee.endswith(x) for x in NONE_PRESERVING):
             if known_label(o.args[0]) == 'None':
